@@ -767,15 +767,28 @@ func (vc *VC) nativeModel(fr *Frame, st *State, instr *ssa.Call, c *ssa.CallComm
 			return true
 		}
 		if strings.HasPrefix(op, "PutUint") {
+			// the bytes are the unique base-256 digits of v: fresh digits d_i in [0,256) whose Horner sum
+			// is v (linear for the solver, unlike div/mod by powers of two)
 			v := args[2]
+			var horner Term
+			var digits []Term
+			for i := 0; i < width; i++ {
+				d := vc.q.Fresh(fr.prefix+"$put", SInt)
+				vc.q.Assert(rangeAssume(d, intInfo{8, false}))
+				digits = append(digits, d)
+				if i == 0 {
+					horner = d
+				} else {
+					horner = Add(App(SInt, "*", horner, IntLit(256)), d)
+				}
+			}
+			vc.q.Assert(Implies(And(Le(IntLit(0), v), Lt(v, Term{pow2(8 * width).String(), SInt})), Eq(horner, v)))
 			for i := 0; i < width; i++ {
 				k := i
 				if little {
 					k = width - 1 - i
 				}
-				shift := pow2(8 * (width - 1 - i))
-				byteV := T(SInt, "(mod (div %s %s) 256)", v.S, shift.String())
-				vc.store(st, SliceElemPtr(b, IntLit(int64(k))), u8, byteV)
+				vc.store(st, SliceElemPtr(b, IntLit(int64(k))), u8, digits[i])
 			}
 			vc.setResults(fr, instr, nil)
 			return true
